@@ -79,7 +79,7 @@ func c19ParseErrKind(err error) string {
 	}
 	s = strings.TrimPrefix(s, ErrInvalidDPoP.Error()+": ")
 	for _, p := range [][2]string{{"invalid number of signatures", "nsig"}, {"invalid alg", "alg"}, {"invalid type", "typ"}, {"missing jwk header", "nojwk"},
-		{"invalid jwk header", "privjwk"}, {"missing iat claim", "iat"}, {"missing htu claim", "missing htu"}, {"invalid htu claim", "invalid htu"},
+		{"invalid jwk header", "privjwk"}, {"alg does not fit jwk", "algfit"}, {"missing iat claim", "iat"}, {"missing htu claim", "missing htu"}, {"invalid htu claim", "invalid htu"},
 		{"missing htm claim", "missing htm"}, {"invalid htm claim", "invalid htm"}, {"missing jti claim", "jti"}, {"jti claim too long", "jtilong"}} {
 		if strings.HasPrefix(s, p[0]) {
 			return p[1]
@@ -108,7 +108,7 @@ func c19Claim(tok jwt.Token, key string) map[string]any {
 
 // observe what jwx says about s (the data the model takes as input); "" second result = jwx itself misbehaved
 func c19Observe(s string) (map[string]any, string) {
-	in := map[string]any{"jwsOk": false, "nSigs": 0, "algSupported": false, "typ": "", "hasJwk": false, "jwkPrivate": false, "jwtOk": false,
+	in := map[string]any{"jwsOk": false, "nSigs": 0, "algSupported": false, "typ": "", "hasJwk": false, "jwkPrivate": false, "algFitsKey": true, "jwtOk": false,
 		"iatZero": true, "htu": map[string]any{"has": false}, "htm": map[string]any{"has": false}, "jtiLen": 0}
 	res := c19Guard(func() string {
 		msg, err := jws.ParseString(s)
@@ -128,6 +128,10 @@ func c19Observe(s string) (map[string]any, string) {
 			return "done"
 		}
 		in["jwkPrivate"] = jwkIsPrivateKey(h.JWK())
+		in["algFitsKey"] = jwx.AlgorithmFitsKey(h.Algorithm(), h.JWK())
+		if in["algFitsKey"] == false {
+			return "done"
+		}
 		tok, err := jwt.ParseString(s, jwt.WithKey(h.Algorithm(), h.JWK()))
 		if err != nil {
 			return "done"
@@ -267,6 +271,12 @@ func TestVerifC19(t *testing.T) {
 		{`{"alg":"none","typ":"dpop+jwt","jwk":` + sg.pubJWK + `}`, string(validClaims()), "alg-none", true, sg.jkt},
 		{`{"alg":"HS256","typ":"dpop+jwt","jwk":` + sg.pubJWK + `}`, string(validClaims()), "alg-hs256", true, sg.jkt},
 		{`{"alg":"ES256","typ":"dpop+jwt"}`, string(validClaims()), "no-jwk", true, sg.jkt},
+		{`{"alg":"ES384","typ":"dpop+jwt","jwk":` + sg.pubJWK + `}`, string(validClaims()), "alg-curve-mismatch", true, sg.jkt},
+		{`{"alg":"EdDSA","typ":"dpop+jwt","jwk":{"kty":"OKP","crv":"Ed25519","x":"` + base64.RawURLEncoding.EncodeToString(make([]byte, 32)) + `"}}`, string(validClaims()), "okp-32", true, sg.jkt},
+		{`{"alg":"EdDSA","typ":"dpop+jwt","jwk":{"kty":"OKP","crv":"Ed25519","x":"` + base64.RawURLEncoding.EncodeToString(make([]byte, 33)) + `"}}`, string(validClaims()), "okp-33", true, sg.jkt},
+		{`{"alg":"EdDSA","typ":"dpop+jwt","jwk":{"kty":"OKP","crv":"Ed25519","x":"` + base64.RawURLEncoding.EncodeToString(make([]byte, 31)) + `"}}`, string(validClaims()), "okp-31", true, sg.jkt},
+		{`{"alg":"EdDSA","typ":"dpop+jwt","jwk":{"kty":"OKP","crv":"Ed25519","x":""}}`, string(validClaims()), "okp-0", true, sg.jkt},
+		{`{"alg":"ES256","typ":"dpop+jwt","jwk":{"kty":"OKP","crv":"Ed25519","x":"` + base64.RawURLEncoding.EncodeToString(make([]byte, 32)) + `"}}`, string(validClaims()), "okp-with-es256", true, sg.jkt},
 		{`{"alg":"ES256","typ":"JWT","jwk":` + sg.pubJWK + `}`, string(validClaims()), "typ-jwt", true, sg.jkt},
 		{string(validHeader(sg.pubJWK)), fmt.Sprintf(`{"htm":"POST","htu":"https://a/","jti":"%s","iat":%d}`, strings.Repeat("j", 256), now), "jti-256", true, sg.jkt},
 		{string(validHeader(sg.pubJWK)), fmt.Sprintf(`{"htm":"POST","htu":"https://a/","jti":"%s","iat":%d}`, strings.Repeat("j", 257), now), "jti-257", true, sg.jkt},
